@@ -323,7 +323,8 @@ def thorough(ctx):
         if " for " in src or "if" in src.split() or " and " in src or " or " in src:
             continue  # branching probes: order on the longest path is checked below for the linear ones only
         rout = run_reference(src, "eval")
-        seqs = {tuple(e[1] for e in c.trace if e[0] == "eval") for c in rout.get("return")}
+        # (a probe the language itself rejects at run time - `**` of a list display - has only raising paths: the operands are still loaded first)
+        seqs = {tuple(e[1] for e in c.trace if e[0] == "eval") for c in rout.get("return") + rout.get("raise")}
         longest = max(seqs, key=len) if seqs else ()
         ref = tuple(cpython_load_order(src))
         ctx.check(longest == ref, "R01.oracle", "sa.pyref", f"order of `{src}`",
